@@ -3,6 +3,7 @@ package props
 import (
 	"bytes"
 	"math/big"
+	"strings"
 
 	"github.com/dedis/kyber"
 	gbn "github.com/ethereum/go-ethereum/crypto/bn256/google"
@@ -502,6 +503,63 @@ func genC11(rng *hx.Rng, tier string, w *hx.Writer) error {
 		// the same through the model's decoder (Models/GtCodec.v), with trailing bytes as well
 		c11DecodeGT(w, enc, "gt-valid")
 		c11DecodeGT(w, append(append([]byte{}, enc...), rng.Bytes(1+rng.Intn(40))...), "gt-trailing")
+	}
+	// an encoding handed out belongs to the caller: writing into it (a fuzzer flipping bits in place, a
+	// buffer reused for the next message) changes neither the element nor what a later MarshalBinary
+	// of the same or of an equal element returns - for the identity and ordinary elements of G1, G2, GT
+	// and for scalars
+	for gi, g := range []kyber.Group{Bn.G1(), Bn.G2(), Bn.GT()} {
+		for _, kv := range []*big.Int{big.NewInt(0), big.NewInt(1), rng.BigBelow(BnQ)} {
+			var problems []string
+			res := hx.Catch(func() string {
+				mk := func() kyber.Point {
+					if kv.Sign() == 0 {
+						return g.Point().Null()
+					}
+					return g.Point().Mul(Sc(Bn.G1(), kv, BnQ), nil)
+				}
+				P := mk()
+				e1 := PtBytes(P)
+				ref := append([]byte{}, e1...)
+				for i := range e1 {
+					e1[i] ^= 0xA5
+				}
+				if !bytes.Equal(PtBytes(P), ref) {
+					problems = append(problems, "writing into a returned encoding changed the element's next encoding")
+				}
+				if !bytes.Equal(PtBytes(mk()), ref) {
+					problems = append(problems, "writing into a returned encoding changed the encoding of an equal element computed afterwards")
+				}
+				Q := g.Point()
+				if err := Q.UnmarshalBinary(append([]byte{}, ref...)); err != nil || !Q.Equal(mk()) {
+					problems = append(problems, "the element's own encoding no longer decodes to it")
+				}
+				return hx.B([]byte(strings.Join(problems, "; ")))
+			})
+			oracle := "ok"
+			name := []string{"G1", "G2", "GT"}[gi]
+			if res == hx.P {
+				oracle = hx.Fail("roundtrip-broken", name+": panic after a returned encoding was written into: "+hx.LastPanic)
+			} else if len(problems) > 0 {
+				oracle = hx.Fail("roundtrip-broken", name+": "+strings.Join(problems, "; "))
+			}
+			w.Put(hx.Case{Entry: "-", Op: 0, Args: hx.L(hx.Zi(gi), hx.Z(kv)), Impl: res, Oracle: oracle, Tags: []string{"returned-encoding-owned-by-caller", "nt"}})
+		}
+	}
+	for _, kv := range []*big.Int{big.NewInt(0), big.NewInt(1), rng.BigBelow(BnQ)} {
+		s1 := Sc(Bn.G1(), kv, BnQ)
+		b1, _ := s1.MarshalBinary()
+		ref := append([]byte{}, b1...)
+		for i := range b1 {
+			b1[i] ^= 0xA5
+		}
+		b2, _ := s1.MarshalBinary()
+		b3, _ := Sc(Bn.G1(), kv, BnQ).MarshalBinary()
+		oracle := "ok"
+		if !bytes.Equal(b2, ref) || !bytes.Equal(b3, ref) {
+			oracle = hx.Fail("roundtrip-broken", "scalar: writing into a returned encoding changed a later encoding")
+		}
+		w.Put(hx.Case{Entry: "-", Op: 0, Args: hx.L(hx.Z(kv)), Impl: hx.B(b2), Oracle: oracle, Tags: []string{"returned-encoding-owned-by-caller", "nt"}})
 	}
 	// GT: arbitrary input - every length class, words at and beyond the field prime, bit flips of a
 	// valid encoding (the decoder makes no membership test: what it must do is refuse short input and
